@@ -375,6 +375,9 @@ class LogicalType(type):  # noqa
                     # like NormalFloat = AllOf(Float, Not(AbnormalFloat))('3.3')
                     value = context.transformer(value, con)
                 except Exception as e:
+                    if not isinstance(e, exc.ParseError):
+                        # whatever a converter raised: a condition that is not met is a parse error
+                        e = exc.ParseError(type=con, value=value, origin_exc=e)
                     context.handle_error(e)
                     break
             # when errors are collected handle_error() only records the failure:
@@ -1828,7 +1831,7 @@ class Rule(metaclass=LogicalType):
             with context.enter(route=i) as item_context:
                 try:
                     item_context.transformer(item, cls.contains)
-                except (TypeError, ValueError):
+                except Exception:  # noqa: whatever the converter raises, the item is not of that type
                     pass
                 else:
                     contains += 1
